@@ -76,6 +76,70 @@ def r07ab(ctx):
     nb = 0
     bad_n = []
     range_bad = []
+    how = 'moduli extracted from the source expression, evaluated for n = 2..64'
+    try:
+        nb, bad_n, range_bad = _affine_products(f, npar, draws)
+    except AnalysisBroken as ex0:
+        # draws outside a canonical loop (e.g. one draw whose digits are peeled off): interval evaluation of the whole
+        # generator for each concrete n (sa/drawinterp.py) -- moduli with the declared word width, subscripts as intervals
+        from ..drawinterp import DrawInterp
+        how = 'interval evaluation of the generator for each n = 2..64 (draws as intervals, machine-word arithmetic)'
+        try:
+            for n in range(2, 65):
+                di = DrawInterp(f, {npar['n']: n}, SAMPLERS).run()
+                prod = 1
+                for m, line in di.draws:
+                    if m <= 0:
+                        bad_n.append((n, 'modulus %d (line %s)' % (m, line)))
+                        m = 1
+                    prod *= m
+                if prod % math.factorial(n) != 0:
+                    bad_n.append((n, 'the draw moduli %s multiply to a value that is not a multiple of n! (%d! %s)' % (
+                        [m for m, _ in di.draws][:4], n, 'exceeds the machine word' if math.factorial(n) > ULONG_MAX else 'does not divide it')))
+                for vn, ix, size, line in di.index:
+                    if ix.lo < 0 or ix.hi >= size:
+                        range_bad.append((n, line, ix.hi, ix.hi))
+                nb += 1
+        except evalx.NotEvaluable as ex:
+            raise AnalysisBroken('%s; interval evaluation: %s' % (ex0, ex))
+    if bad_n:
+        ctx.bad('R07b', key0, 'independent draws cannot yield a uniform permutation: for n=%d %s (first of %d sizes in 2..64)' % (
+            bad_n[0][0], bad_n[0][1], len(set(b[0] for b in bad_n))), f)
+    else:
+        ctx.ok('R07b', key0, 'n! divides the product of the draw moduli for every n in 2..64', f,
+               detail=how)
+    if range_bad:
+        n, i, r, v = range_bad[0]
+        ctx.bad('R07a', 'R07a:random_permutation_fast', 'swap index out of range: n=%d i=%d draw=%d gives index %d' % (n, i, r, v), f)
+    else:
+        ctx.ok('R07a', 'R07a:random_permutation_fast', 'every index derived from a draw stays in [0, n) for n = 2..64', f)
+    ctx.floor('R07b', nb, 63)
+    # rotation: one draw from [0, n), indices reduced mod n
+    f = prog.fn('random_rotation', 0)
+    a = ctx.analysis(f)
+    T = a.T
+    np_ = T.mk('param', f['params'][0]['n'])
+    calls = [ev for nid, ev in a.all_events('call') if ev[1] in SAMPLERS]
+    okr = len(calls) == 1 and calls[0][2] and calls[0][2][0] == np_
+    (ctx.ok if okr else ctx.bad)('R07b', 'R07b:random_rotation', 'offset is one draw from [0, n)' if okr else 'rotation offset is not a single draw from [0, n)', f)
+    raw = []
+    for q in ('random_permutation_fast', 'random_rotation', 'SchindelhauerTMCG::TMCG_CreateStackSecret'):
+        for g in prog.by_q.get(q, []):
+            for e in walk(g['body']):
+                if e.get('k') == 'bin' and e.get('op') == '%':
+                    for x in walk(e['a'][0]):
+                        if x.get('k') == 'call' and x.get('f', '').endswith('random_ui'):
+                            raw.append((g, e.get('l')))
+    for g, line in raw:
+        ctx.bad('R07c', 'R07c:%s:raw-modulo' % g['q'], 'permutation index taken as raw random value modulo n (modulo bias)', g, line=line)
+    if not raw:
+        ctx.ok('R07c', 'R07c:no-raw-modulo', 'no shuffle index is computed as raw random % n')
+
+
+def _affine_products(f, npar, draws):
+    nb = 0
+    bad_n = []
+    range_bad = []
     for n in range(2, 65):
         prod = 1
         for stack, call in draws:
@@ -107,38 +171,7 @@ def r07ab(ctx):
         nb += 1
         if prod % math.factorial(n) != 0:
             bad_n.append((n, 'product of moduli %d is not a multiple of n!' % prod if n < 8 else 'product of moduli is not a multiple of n!'))
-    if bad_n:
-        ctx.bad('R07b', key0, 'independent draws cannot yield a uniform permutation: for n=%d %s (first of %d sizes in 2..64)' % (
-            bad_n[0][0], bad_n[0][1], len(set(b[0] for b in bad_n))), f)
-    else:
-        ctx.ok('R07b', key0, 'n! divides the product of the draw moduli for every n in 2..64', f,
-               detail='moduli extracted from the source expression, evaluated for n = 2..64')
-    if range_bad:
-        n, i, r, v = range_bad[0]
-        ctx.bad('R07a', 'R07a:random_permutation_fast', 'swap index out of range: n=%d i=%d draw=%d gives index %d' % (n, i, r, v), f)
-    else:
-        ctx.ok('R07a', 'R07a:random_permutation_fast', 'every index derived from a draw stays in [0, n) for n = 2..64', f)
-    ctx.floor('R07b', nb, 63)
-    # rotation: one draw from [0, n), indices reduced mod n
-    f = prog.fn('random_rotation', 0)
-    a = ctx.analysis(f)
-    T = a.T
-    np_ = T.mk('param', f['params'][0]['n'])
-    calls = [ev for nid, ev in a.all_events('call') if ev[1] in SAMPLERS]
-    okr = len(calls) == 1 and calls[0][2] and calls[0][2][0] == np_
-    (ctx.ok if okr else ctx.bad)('R07b', 'R07b:random_rotation', 'offset is one draw from [0, n)' if okr else 'rotation offset is not a single draw from [0, n)', f)
-    raw = []
-    for q in ('random_permutation_fast', 'random_rotation', 'SchindelhauerTMCG::TMCG_CreateStackSecret'):
-        for g in prog.by_q.get(q, []):
-            for e in walk(g['body']):
-                if e.get('k') == 'bin' and e.get('op') == '%':
-                    for x in walk(e['a'][0]):
-                        if x.get('k') == 'call' and x.get('f', '').endswith('random_ui'):
-                            raw.append((g, e.get('l')))
-    for g, line in raw:
-        ctx.bad('R07c', 'R07c:%s:raw-modulo' % g['q'], 'permutation index taken as raw random value modulo n (modulo bias)', g, line=line)
-    if not raw:
-        ctx.ok('R07c', 'R07c:no-raw-modulo', 'no shuffle index is computed as raw random % n')
+    return nb, bad_n, range_bad
 
 
 def index_uses(loop, call):
